@@ -28,7 +28,8 @@ LEVEL_TEXT = ("per-call outcome vectors are enumerated exhaustively (5^n) for n<
               "over data.")
 LEVEL_NOTE = ("fake API client and component graph; real status trackers fed with healthy data so all components are "
               "working when the request arrives; one request per manager instance (plus follow-up requests after "
-              "failures in the sequence bucket)")
+              "failures in the sequence bucket)"
+              ' Build phase: a battery group outside the request, request objects changed in flight, PV inverter without a reported bound, per-call latencies, fractional timeouts.')
 RULE = ("battery: batdata generator (C01 domain) x outcome vector over the commanded inverters; pv: 1-6 solar inverters "
         "with arbitrary lower bounds, request negative/zero/positive, x outcome vector. distinct = canonical case "
         "JSON; non-trivial = >=2 set_power calls and at least one non-ok outcome or non-zero excess")
